@@ -1,7 +1,5 @@
 package main
 
-var generators = map[string]func(*out){}
-
 func init() {
 	generators["C12_gen"] = func(o *out) {
 		const d = "lib/binpatch"
